@@ -341,8 +341,11 @@ class C16(Check):
                         h, p = others[i % len(others)]
                         i += 1
                         yield ("g", root, text, h, p)
-            ls.append(("L2-grammar-k<=3-module-host+rotating-host", rot()))
-            ls.append(("L2b-grammar-k<=4-expressions-in-a-method", gram(4, ["method"], ["int"], ["value"])))
+            # (since `value` became a single alternative in grammar.pest its minimal derivation runs through math_expr, and the number of derivations within
+            # k deviations grew eightfold; the quick tier takes every 6th / 8th of the two largest layers, the thorough tier all of them)
+            import itertools as _it
+            ls.append(("L2-grammar-k<=3-module-host+rotating-host-every-6th", _it.islice(rot(), 0, None, 6)))
+            ls.append(("L2b-grammar-k<=4-expressions-in-a-method-every-8th", _it.islice(gram(4, ["method"], ["int"], ["value"]), 0, None, 8)))
         else:
             ls.append((f"L2-grammar-k<={k}-module-host", gram(k, ["module", "fn"], pre, list(ROOTS))))
         if tier == "quick":
